@@ -5,11 +5,11 @@ EXTENDS Version_Gram, TLC
 
 CONSTANT Vers
 
-WellFormed == \A v \in Vers : IsVer(v)
+WellFormed(S) == \A v \in S : IsVer(v)
 
 \* the six operators are the evident readings of the three-valued comparison (so
 \* exactly one of < = > holds, <= is "< or =", ...), and "~" is "=" without revisions
-OpsAgree == \A a, b \in Vers :
+OpsAgree(S) == \A a, b \in S :
     LET c == VerCmp(a, b)
         t == VerCmp(VNoRev(a), VNoRev(b))
     IN  /\ c \in {-1, 0, 1}
@@ -22,12 +22,12 @@ OpsAgree == \A a, b \in Vers :
         /\ (c = 0 => t = 0)
 
 \* the spelling identifies the version (rendering cases for the code is faithful)
-TextInjective == Cardinality({VerText(v) : v \in Vers}) = Cardinality(Vers)
+TextInjective(S) == Cardinality({VerText(v) : v \in S}) = Cardinality(S)
 
 \* omitted numbers read as 0; leading zeros of integers (first component, suffix
 \* numbers, revision) do not matter; trailing zeros of a later component that
 \* already has a leading zero do not matter
-ZeroIsOmitted == \A a \in Vers :
+ZeroIsOmitted(S) == \A a \in S :
     /\ VerCmp(a, [a EXCEPT !.rev = <<0>>]) = (IF VStripLead(a.rev) = <<>> THEN 0 ELSE 1)
     /\ \A x \in DOMAIN a.sufs :
            /\ a.sufs[x].n = <<>> => VerCmp(a, [a EXCEPT !.sufs[x].n = <<0>>]) = 0
@@ -38,27 +38,29 @@ ZeroIsOmitted == \A a \in Vers :
 
 \* a leading zero on a later component makes it a "decimal fraction": it sorts
 \* below every component without one (1.1 > 1.02, 1.10 > 1.09, 1.1 > 1.010)
-FractionBelowInteger == \A a, b \in Vers :
+FractionBelowInteger(S) == \A a, b \in S :
     (/\ Len(a.nums) >= 2 /\ Len(b.nums) >= 2
      /\ VNatCmp(a.nums[1], b.nums[1]) = 0
      /\ VLeadZero(a.nums[2]) /\ ~VLeadZero(b.nums[2])) => VerCmp(a, b) = -1
 
 \* the suffix ladder _alpha < _beta < _pre < _rc < (none) < _p
-SuffixLadder == \A a \in Vers : a.sufs = <<>> =>
+SuffixLadder(S) == \A a \in S : a.sufs = <<>> =>
     LET W(kk) == [a EXCEPT !.sufs = <<[k |-> kk, n |-> <<>>]>>]
     IN  /\ VerCmp(W("alpha"), W("beta")) = -1 /\ VerCmp(W("beta"), W("pre")) = -1
         /\ VerCmp(W("pre"), W("rc")) = -1     /\ VerCmp(W("rc"), VNoRev(a)) = -1
         /\ VerCmp(VNoRev(a), W("p")) <= 0     /\ VerCmp(a, W("p")) = -1
 
 \* "compare equal" is "same canonical form": equality classes have a hashable key
-CanonLaw == LET Can == [v \in Vers |-> VerCanon(v)]
-            IN  \A a, b \in Vers : (VerCmp(a, b) = 0) = (Can[a] = Can[b])
+CanonLaw(S) == LET Can == TLCEval([v \in S |-> VerCanon(v)])
+            IN  \A a, b \in S : (VerCmp(a, b) = 0) = (Can[a] = Can[b])
 
-ASSUME WellFormed
-ASSUME OpsAgree
-ASSUME TextInjective
-ASSUME ZeroIsOmitted
-ASSUME FractionBelowInteger
-ASSUME SuffixLadder
-ASSUME CanonLaw
+\* (the laws take the grammar as a parameter: TLC evaluates zero-arity definitions eagerly at
+\*  start-up, which evaluated every law twice)
+ASSUME WellFormed(Vers)
+ASSUME OpsAgree(Vers)
+ASSUME TextInjective(Vers)
+ASSUME ZeroIsOmitted(Vers)
+ASSUME FractionBelowInteger(Vers)
+ASSUME SuffixLadder(Vers)
+ASSUME CanonLaw(Vers)
 =============================================================================
